@@ -4,7 +4,7 @@ import glob, json, os
 V = os.path.dirname(os.path.dirname(os.path.abspath(__file__)))
 print("| seeded change | what it changes | what it needs to manifest | caught by: monitor signature(s) that produced the failing input |")
 print("|---|---|---|---|")
-for d in sorted(glob.glob(os.path.join(V, "seeded", "*"))):
+for d in sorted(x for x in glob.glob(os.path.join(V, "seeded", "*")) if os.path.isdir(x)):
     name = os.path.basename(d)
     m = json.load(open(os.path.join(d, "meta.json")))
     def short(t, n):
